@@ -114,6 +114,14 @@ class PickyQuantity(RecordingQuantity):
         super().__init__(value, units)
 
 
+class FalsyAtZeroQuantity(RecordingQuantity):
+    """Like numbers (and like pint's or numpy-backed quantities): false when its
+    magnitude is zero or empty."""
+
+    def __bool__(self):
+        return bool(self.value)
+
+
 class MyModule(PVLModule):
     pass
 
@@ -150,8 +158,9 @@ def load(d, cfg, text, substitutes=True):
         if cfg["real"] != "float" and d != "PDS3":
             deckw["real_cls"] = REAL[cfg["real"]]
         if cfg["quantity"]:
-            deckw["quantity_cls"] = PickyQuantity if cfg["quantity"] == "picky" \
-                else RecordingQuantity
+            deckw["quantity_cls"] = {"picky": PickyQuantity,
+                                     "falsy": FalsyAtZeroQuantity}.get(
+                cfg["quantity"], RecordingQuantity)
         if cfg["containers"]:
             pkw = dict(module_class=MyModule, group_class=MyGroup,
                        object_class=MyObject)
@@ -210,8 +219,8 @@ def walk(v, cfg, d, kind, out, path="$"):
         return ("set", frozenset(walk(x, cfg, d, None, out, path + "{}")
                                  for x in v))
     if isinstance(v, RecordingQuantity) or isinstance(v, Quantity):
-        wantq = {False: Quantity, True: RecordingQuantity,
-                 "picky": PickyQuantity}[cfg["quantity"]]
+        wantq = {False: Quantity, True: RecordingQuantity, "picky": PickyQuantity,
+                 "falsy": FalsyAtZeroQuantity}[cfg["quantity"]]
         if type(v) is not wantq:
             out["problems"].append(
                 ("quantity-class", f"{path}: {type(v).__name__}, expected "
@@ -380,7 +389,7 @@ def cases(draw, d):
     text = gt.seeded_layout(doc, d, draw(st.integers(0, 2 ** 32)), "light")
     cfg = dict(real=draw(st.sampled_from(["float", "Decimal", "RecordingReal",
                                            "RecordingReal", "TextReal"])),
-               quantity=draw(st.sampled_from([False, True, True, "picky"])),
+               quantity=draw(st.sampled_from([False, True, "falsy", "picky"])),
                containers=draw(st.booleans()), kept=draw(st.booleans()),
                via_loads=draw(st.booleans()),
                entry=draw(st.sampled_from(["str", "str", "bytes", "BytesIO",
